@@ -85,6 +85,19 @@ PROPS["C05"] = dict(
     trusted=COMMON_TRUST, excluded=["interleaving of several requests sharing one budget (that is C08's atomic invariant)"],
 )
 
+PROPS["C17"] = dict(
+    units=["fallback"],
+    title="Fallback never replaces a success and handles exactly the errors it should",
+    level_text="Deductive proof (Verus) on the whole real body of Fallback::call (and new/clone/poll_ready): exactly one inner call with the unchanged request; an inner success is returned unchanged and no strategy "
+               "closure or backup service is invoked; an inner error the predicate refuses is returned unchanged as Inner(e); an accepted error yields exactly what the configured strategy specifies for this request and "
+               "this error, for all six strategies (backup: called once with the request, Ok/FallbackFailed mapping). For all requests, outcomes and closures.",
+    level_note="Strategy closures, predicate and backup service are pure functions of their arguments (uninterpreted); every invocation is counted through the shim the call is rewritten to (R6).",
+    technique="contract-based deductive verification (Verus): whole-body effect-trace contract",
+    design_ref="§6 C17",
+    assumptions=["user closures are pure functions", "Clone of request/response is equal to the original"],
+    trusted=COMMON_TRUST, excluded=[],
+)
+
 NOT_APPLICABLE = {
     "C12": "not built: hedge's body is a tokio::select! loop over spawned tasks; needs the select!/spawn rewrite R17 (DESIGN §7); nothing weaker is claimed in its place",
 }
